@@ -10,7 +10,7 @@ C01 — SPECIFICATION layer of the object-level round trip (no proofs of the pro
   * `embDepth`   embedded-object nesting depth
   * `toyCodec`   a concrete instance showing `CodecOk` is satisfiable
 
-Proofs: Proofs/Lemmas/CimXml1.lean … CimXml18.lean (13–14: the decoder is blind to text chunking, imported by 6; 15: the wire delivers normTree; 16–18: CleanObj → WfTree ∧ SoftStable of the encoder output); property theorems: Proofs/Props/C01.lean.
+Proofs: Proofs/Lemmas/CimXml1.lean … CimXml21.lean (13–14: the decoder is blind to text chunking, imported by 6; 15: the wire delivers normTree; 16–18: CleanObj → WfTree ∧ SoftStable of the encoder output; 19–21: error side — only documented exception classes, invalid TYPE rejected); property theorems: Proofs/Props/C01.lean.
 -/
 import Pywbem.Model.CimDefaults
 
